@@ -95,8 +95,9 @@ type Hooks struct {
 	// to run another writer. When Blocked is nil a condition variable is used.
 	Blocked   func(connID int64, waitFor int64)
 	Unblocked func(connID int64)
-	// OnCommit is called under the database lock with the commit sequence number.
-	OnCommit func(connID int64, commitSeq int64)
+	// OnCommit is called under the database lock with the commit sequence number;
+	// explicit is true for the COMMIT of a transaction block, false for an autocommitted statement.
+	OnCommit func(connID int64, commitSeq int64, explicit bool)
 }
 
 // DB is one simulated PostgreSQL cluster.
@@ -562,4 +563,12 @@ func (db *DB) TriggersOn(schema, table string) []Trigger {
 		return nil
 	}
 	return append([]Trigger(nil), t.Triggers...)
+}
+
+// XactActive reports whether the top-level transaction xid is still in progress.
+func (db *DB) XactActive(xid int64) bool {
+	db.mu.Lock()
+	defer db.mu.Unlock()
+	x, ok := db.xacts[xid]
+	return ok && x.top.status == txInProgress
 }
